@@ -384,6 +384,7 @@ type meterReader struct {
 	chunk       int
 	delivered   int
 	failWith    error
+	errMidAt    int  // > 0: the call that crosses this offset returns its data TOGETHER with failWith; later calls deliver more data
 	errWithData bool // deliver the final piece together with the error / EOF in the same call
 	zeroOnce    bool // the first call returns (0, nil)
 	calls       int
@@ -406,6 +407,12 @@ func (m *meterReader) Read(p []byte) (int, error) {
 	}
 	if n > len(m.data)-m.delivered {
 		n = len(m.data) - m.delivered
+	}
+	if m.errMidAt > 0 && m.delivered < m.errMidAt && m.delivered+n >= m.errMidAt {
+		n = m.errMidAt - m.delivered
+		copy(p, m.data[m.delivered:m.delivered+n])
+		m.delivered += n
+		return n, m.failWith
 	}
 	copy(p, m.data[m.delivered:m.delivered+n])
 	m.delivered += n
@@ -447,11 +454,21 @@ func keyObjects(tr *hx.Trace, r *hx.Rng, thorough bool) {
 					bytes.Equal(priv.Public().(ed25519.PublicKey), pub)
 				std := stded.NewKeyFromSeed(data[:32])
 				coherent = coherent && bytes.Equal(std, priv)
-				// the returned public key must not alias the private key
+				// the returned public key must not alias the private key - neither within the slices nor in their spare capacity
 				if len(pub) == 32 && len(priv) == 64 {
 					pub[0] ^= 0xff
 					coherent = coherent && priv[32] != pub[0]
 					pub[0] ^= 0xff
+					pubCopy, privCopy := append([]byte{}, pub...), append([]byte{}, priv...)
+					fp := priv[:cap(priv)]
+					for i := 64; i < len(fp); i++ {
+						fp[i] ^= 0xa5 // what append(priv, ...) would overwrite
+					}
+					fq := pub[:cap(pub)]
+					for i := 32; i < len(fq); i++ {
+						fq[i] ^= 0x5a
+					}
+					coherent = coherent && bytes.Equal(pub, pubCopy) && bytes.Equal(priv, privCopy)
 				}
 			} else {
 				coherent = pub == nil && priv == nil && (rd.fail == nil || rd.avail >= 32 || err == rd.fail || err == io.ErrUnexpectedEOF)
@@ -461,6 +478,20 @@ func keyObjects(tr *hx.Trace, r *hx.Rng, thorough bool) {
 			}
 			tr.Emit(map[string]interface{}{"op": "genkey", "avail": rd.avail, "chunk": rd.chunk, "failing": rd.fail != nil,
 				"err": err != nil, "consumed": m.delivered, "hasKey": pub != nil && priv != nil, "coherent": coherent, "cfg": *fCfg})
+		}
+		// a reader that reports an error together with some data in the middle of the seed and would deliver more afterwards:
+		// io.ReadFull stops at the error (fewer than 32 bytes read), so no key may be returned
+		for _, at := range []int{1, 10, 31} {
+			data := r.Bytes(64)
+			m := &meterReader{data: data, chunk: []int{0, 4, 16}[rep%3], failWith: errors.New("verif: transient reader error"), errMidAt: at}
+			var pub ed25519.PublicKey
+			var priv ed25519.PrivateKey
+			var err error
+			if guard(tr, "GenerateKey", func() { pub, priv, err = ed25519.GenerateKey(m) }) {
+				continue
+			}
+			tr.Emit(map[string]interface{}{"op": "genkey", "avail": at, "chunk": m.chunk, "failing": true, "err": err != nil, "consumed": m.delivered,
+				"hasKey": pub != nil || priv != nil, "coherent": err == m.failWith && pub == nil && priv == nil, "cfg": *fCfg, "kind": "error-with-data-mid-seed"})
 		}
 		// nil reader: crypto/rand
 		pub, priv, err := ed25519.GenerateKey(nil)
